@@ -900,7 +900,7 @@ class DBusObjectHandler :
                 try:
                     marshal.validateErrorName(name)
                 except error.MarshallingError:
-                    errMsg = ('!!(Invalid error name "%s")!! ' % name) + errMsg
+                    errMsg = ('!!(Invalid error name "%s")!! ' % (name,)) + errMsg
                     name = 'org.txdbus.InvalidErrorName'
 
                 # the text (with a refused name quoted in it) must be a valid
